@@ -966,6 +966,10 @@ class Interp:
                     raise _Raise(AObj("IndexError"))
                 return AList(r) if isinstance(idx, slice) else r
             return Unknown(f"{obj.name}[{_text(idx)}]")
+        if isinstance(obj, dict) and isinstance(idx, (AObj, EnumMember)):
+            if idx in obj:
+                return obj[idx]
+            raise _Raise(AObj("KeyError"))
         if isinstance(obj, dict) and isinstance(idx, Unknown) and self.fork_dict and obj:
             keys = list(obj.keys())
             i = self.choose(len(keys), f"{idx.text} == ?")
@@ -1205,7 +1209,7 @@ class Interp:
             return getattr(obj, attr)(*args)
         if isinstance(obj, AObj):
             obj.calls.append((attr, args, kwargs))
-            return Unknown(f"{obj.name}.{attr}()")
+            return Unknown(f"{obj.name}.{attr}({', '.join(_text(a) for a in args)})")
         if isinstance(obj, SymList):
             raise AnalysisError(f"absint: method {attr} on symbolic list {obj.name}")
         return Unknown(f"{_text(obj)}.{attr}({', '.join(_text(a) for a in args)})")
